@@ -190,6 +190,29 @@ def run(F, R, tier):
                 break
         R.ob("C02-e", "a reported resolution error is queued for the caller", ok, "result of check_resolution is dropped", where(c))
 
+    # the error listing reads the same dependency set the walk follows
+    from . import c15 as _c15
+    nxw = F.body("<graph::ModuleEntryIterator as std::iter::Iterator>::next")
+    def dep_selection(b):
+        sel = [n for n in b["_nodes"] if callee_matches(n, ["Module::dependencies_prefer_fast_check"])]
+        out = []
+        for n in sel:
+            g = expand_local_guards(F, guards_at(F, n), b)
+            out.append((any(x.kind == "cond" and x.pol and peel(x.node).get("field") == "prefer_fast_check_graph" or (x.kind == "cond" and x.pol and any(mentions_field(y, "prefer_fast_check_graph") for y in through_locals(x.node))) for x in g),
+                        any(x.kind == "cond" and x.pol and (x.node.get("fn") or "").endswith("GraphKind::include_types") for x in g),
+                        any(x.kind == "cond" and x.pol and (x.node.get("fn") or "").endswith("is_checkable") for x in g)))
+        return out
+    sw, se = dep_selection(nxw), dep_selection(en)
+    R.ob("C02-e", "walker and error listing select fast-check dependencies under the same conditions", sw == se and se == [(True, True, True)],
+         "walker selects fast-check dependencies under %s, the error listing under %s (prefer_fast_check, include_types, is_checkable): errors of edges the walk follows would not be looked up" % (sw, se), en["file"])
+    # the types-only substitution never hides a failed types dependency
+    for c_ in [n for n in nxw["_nodes"] if n["k"] == "Continue"]:
+        g = guards_at(F, c_)
+        sub = any(x.kind == "pat" and x.pol and "graph::Resolution::Ok" in pat_text(x.pat) for x in g)
+        unchk = any(x.kind == "cond" and not x.pol and (x.node.get("fn") or "").endswith("is_checkable") for x in g)
+        R.ob("C02-e", "a module is left out of a types-only walk only if its types dependency resolved, or it is unchecked JS", sub or unchk,
+             "a module can be skipped although its types dependency failed to resolve: that failure is never reported", where(c_))
+
     # ---------------- C02-w ------------------------------------------------
     # the error listing can only report what the walk yields: a specifier that
     # is marked seen without being queued is skipped with everything below it
